@@ -212,6 +212,81 @@ KIND_SETS = [
 ]
 
 
+def directed_case(rng, kind, analysis=None, floating=True):
+    """a small circuit in which a component of the given kind certainly appears, with all of its
+    terminals on non-ground nodes when `floating` (so that no stamp entry is hidden by the ground
+    row/column), optional arguments present, either orientation"""
+    analysis = analysis or rng.choice(['dc', 's', 'ivp', 'ac'])
+    g = Gen(rng, analysis, 5, 0, ['R', 'V', 'I', 'C', 'L'], symbolic_prob=0.15)
+    g.omega = Fraction(rng.randint(1, 9), rng.randint(1, 3))
+    n = ['1', '2', '3', '4'] if floating else ['1', '0', '2', '0']
+    if not floating and rng.random() < 0.5:
+        n = ['1', '2', '3', '0']
+    # a driven resistive/reactive skeleton touching every node
+    g.element('V', ['1', '0'])
+    g.element('R', ['1', '2'])
+    g.element(rng.choice(['R', 'C', 'L']) if analysis != 'dc' else 'R', ['2', '0'])
+    g.element('R', ['3', '0'])
+    g.element('R', ['3', '4'])
+    g.element(rng.choice(['R', 'C', 'L']) if analysis != 'dc' else 'R', ['4', '0'])
+    g.element('R', ['2', '3']) if rng.random() < 0.5 else None
+    perm = list(n)
+    if rng.random() < 0.5:
+        perm = [perm[1], perm[0], perm[2], perm[3]]
+    if rng.random() < 0.5:
+        perm = [perm[0], perm[1], perm[3], perm[2]]
+    rv_ = rv(rng)
+    sv_ = sv(rng)
+    if kind == 'Eac':
+        g.add('E', perm, sv_, extra_model=' %s' % fs(sv(rng)))
+    elif kind == 'E':
+        g.add('E', perm, sv_)
+    elif kind == 'G':
+        g.add('G', perm, sv_)
+    elif kind == 'TF':
+        g.add('TF', perm, sv_)
+    elif kind == 'GY':
+        g.add('GY', perm, rv_)
+    elif kind in ('F', 'H'):
+        g.element('V', ['4', '3'] if rng.random() < 0.5 else ['3', '4'])
+        nm = g.name(kind)
+        l = '%s %s %s %s %s' % (nm, perm[0], perm[1], rng.choice(g.vsources), fs(sv_))
+        g.lines.append((l, l))
+    elif kind == 'TR':
+        g.add('TR', perm[:2], sv_)
+    elif kind == 'AM':
+        g.add('AM', perm[:2])
+    elif kind == 'K':
+        g.kinds = ['K']
+        g.element('L', [perm[0], perm[1]])
+        g.element('L', [perm[2], perm[3]])
+        g.element('K')
+    elif kind == 'Cic':
+        g.analysis = analysis = 'ivp'
+        g.add('C', perm[:2], rv_, extra_model=' %s' % fs(sv_))
+    elif kind == 'Lic':
+        g.analysis = analysis = 'ivp'
+        g.inductors[g.add('L', perm[:2], rv_, extra_model=' %s' % fs(sv_))] = rv_
+    elif kind == 'I':
+        g.element('I', perm[:2])
+    elif kind == 'W':
+        g.element('W')
+        g.element('R', [g.nodes[-1], perm[0]])
+    else:
+        raise ValueError(kind)
+    if analysis in ('ac', 's') and not any(m.split()[0][0] in 'CL' for (m, _) in g.lines):
+        g.element(rng.choice(['C', 'L']), ['2', '4'])
+    if analysis == 'ivp' and not any(m.split()[0][0] in 'CL' and len(m.split()) == 5 for (m, _) in g.lines):
+        nm = g.name('C')
+        l = '%s 2 4 %s %s' % (nm, fs(rv(rng)), fs(sv(rng)))
+        g.lines.append((l, l))
+    return {'analysis': analysis, 'lines': [m for (m, _) in g.lines], 'lcapy': [l for (_, l) in g.lines],
+            'subs': dict(g.subs), 'omega': g.omega, 'kinds': [kind], 'directed': kind}
+
+
+DIRECTED_KINDS = ['E', 'Eac', 'G', 'F', 'H', 'TF', 'GY', 'TR', 'AM', 'K', 'Cic', 'Lic', 'I', 'W']
+
+
 def random_case(rng, analysis=None, max_nodes=5):
     analysis = analysis or rng.choice(['dc', 's', 'ivp', 'ac'])
     kinds = list(rng.choice(KIND_SETS))
